@@ -98,7 +98,8 @@ def run(chk):
 
 def one_shape(chk, it, shape):
     tag = '+'.join('%d.%d' % (a, b) for a, b, c in shape)
-    run_ = B.run_batch(chk, it, shape)
+    # the state may be in the middle of a block: one transaction applied by an earlier call at this height (arbitrary)
+    run_ = B.run_batch(chk, it, shape, prior_txs=1)
     tree0 = run_.state0.fields[3].fields[0].data
     qh, qi = z3.BitVec('q_txhash', 256), z3.BitVec('q_index', 8)
     inputs = dict(run_.inputs)
@@ -230,4 +231,36 @@ def replay_graph(chk, run_, st, model):
 
 def replay(chk, run_, st, model, panic=False):
     from props import scenario
-    return scenario.replay_batch(chk, run_, st, model, scenario.panic_verdict if panic else scenario.c02_verdict)
+    r = scenario.replay_batch(chk, run_, st, model, scenario.panic_verdict if panic else scenario.c02_verdict)
+    if r[0] or panic:
+        return r
+    # the model's state may be mid-block (a transaction applied by an earlier call at the same height): the same spending
+    # relation natively, as two separate calls in one block -- a creates a coin, a later call spends it
+    r2 = replay_two_calls(chk)
+    return r2 if r2[0] else r
+
+
+def replay_two_calls(chk):
+    raw = lambda k: {'txhash': {'hex': ('%02x' % k) * 32}, 'index': 0}
+    tc = {'covhash_of': 'true'}
+    coins = [{'id': raw(0x21), 'covhash': tc, 'value': '1000', 'denom': 'MEL', 'adata': '', 'height': 0}]
+    txs = [{'name': 'a', 'kind': 0, 'inputs': [raw(0x21)], 'fee': '0', 'covenants': ['true'], 'data': '',
+            'outputs': [{'covhash': tc, 'value': '600', 'denom': 'MEL', 'adata': ''}, {'covhash': tc, 'value': '400', 'denom': 'MEL', 'adata': '01'}]},
+           {'name': 'b', 'kind': 0, 'inputs': [{'txhash': {'txhash_of': 'a'}, 'index': 0}], 'fee': '0', 'covenants': ['true'], 'data': '',
+            'outputs': [{'covhash': tc, 'value': '600', 'denom': 'MEL', 'adata': '02'}]},
+           {'name': 'c', 'kind': 0, 'inputs': [{'txhash': {'txhash_of': 'a'}, 'index': 0}], 'fee': '0', 'covenants': ['true'], 'data': '',
+            'outputs': [{'covhash': tc, 'value': '600', 'denom': 'MEL', 'adata': '03'}]}]
+    sc = {'kind': 'batch', 'network': 2, 'height': 5, 'fee_pool': '0', 'tips': '0', 'fee_multiplier': '0', 'dosc_speed': '1000000',
+          'coins': coins, 'txs': txs, 'probes': [], 'orders': [[0]], 'steps': [[0], [1], [2]]}
+    out = harness.run_replay([sc], 'dev')[0]
+    if 'error' in out or 'unrealizable' in out:
+        raise Inconclusive('replay: %s' % str(out)[:300])
+    st = out['steps']
+    why = []
+    if st[0].get('result') != 'Ok' or st[1].get('result') != 'Ok':
+        raise Inconclusive('replay: the two-call scenario itself was rejected: %s' % st[:2])
+    if st[1].get('n_coins') != st[0].get('n_coins'):
+        why.append('coin count after the second call is %s, expected %s (one coin spent, one created)' % (st[1].get('n_coins'), st[0].get('n_coins')))
+    if st[2].get('result') == 'Ok':
+        why.append('a coin created by an earlier call of the block and spent by a later one was spent again')
+    return bool(why), sc, {'why': why, 'steps': st}
